@@ -10,19 +10,19 @@ CLAIMS = {
          "Rank function: for ALL ASCII category/priority strings (any case) the AST-translated by_priority equals the documented rank key (z3 unsat per table cell). Selection/eligibility/ties: within N<=2 (quick) / N<=3 (thorough) feedbacks, category/priority/kind/flag menus, one or two suppress() calls of every form with symbolic field values, CrossHair confirms over all paths that resolve() shows exactly min((rank, creation index)) over eligible feedback, the default result when none, and never raises.",
          "documented rank list transcribed into the checker; CrossHair/z3 models; N>3 and non-ASCII strings outside the bound", "DESIGN.md §3 C01"),
  "C02": (TECH,
-         "For every ordered pair (quick) / triple (thorough) of feedback calls from an 8-entry constructor menu (core commands and generic Feedback), with symbolic activate/muted flags, unbounded symbolic message strings and symbolic suppress switches, CrossHair confirms over all paths that correct == success == to_json()['correct'] == conjunction of `correct` over eligible feedback.",
+         "For every ordered pair (quick) / triple (thorough) of feedback calls from a 12-entry constructor menu (core commands and generic Feedback incl. highest-priority, unscored and else_message variants), with symbolic activate/muted/unscored flags, unbounded symbolic message strings and symbolic suppress switches, CrossHair confirms over all paths that correct == success == to_json()['correct'] == conjunction of `correct` over eligible feedback; label+fields suppressions with symbolic field values; resolve / change visibility / resolve-again histories.",
          "constructor menu is finite; CrossHair/z3 models; harness oracle", "DESIGN.md §3 C02"),
  "C03": (TECH2,
-         "Operator kernel add_to_current decided for all real current/value by z3 on the AST translation; the valence x trigger x muted/unscored/suppressed table decided by CrossHair over all paths for N<=2 (quick) / N<=3 (thorough) feedbacks with score literals from a menu covering each documented form; oracle is the exact rational sum.",
+         "Operator kernel add_to_current decided for all real current/value by z3 on the AST translation; the valence x trigger x muted/unscored/suppressed table decided by CrossHair over all paths for N<=2 (quick) / N<=3 (thorough) feedbacks with score literals from a menu covering each documented form (incl. fractional percents, numeric scores from 1e-07 to 1e16), label suppressions and else_message; oracle is the exact rational sum.",
          "score literals from a finite menu (formatting realises symbolic floats); reals instead of floats in E2", "DESIGN.md §3 C03"),
  "C04": (TECH,
-         "With exec replaced by a stub (symbolic printed text, termination object chosen by symbolic bits from 10 handled classes incl. broken __str__/__repr__, SystemExit, RecursionError) CrossHair confirms over all paths, for run/call/evaluate unthreaded and threaded, that the call returns normally, the failure is the sandbox's exception and exactly one triggered runtime feedback of the mapped class is attached; real compile() failures incl. a NUL byte are covered by a second obligation. Which programs produce which termination, student-line locations and name filters are outside the claim.",
-         "exec stub; termination menu is finite; CrossHair/z3 models; threaded obligations run the worker untraced", "DESIGN.md §3 C04"),
+         "With exec replaced by a stub (symbolic printed text, termination object chosen by symbolic bits from 13 handled classes incl. broken __str__/__repr__, argument-less KeyError/IndexError, SystemExit, RecursionError; the program may close its stdout or re-enter the sandbox) CrossHair confirms over all paths, for run/call/evaluate unthreaded and threaded, that the call returns normally, the failure is the sandbox's exception and exactly one triggered runtime feedback of the mapped class is attached; real compile() failures incl. a NUL byte are covered by a second obligation. Which programs produce which termination, student-line locations and name filters are outside the claim.",
+         "exec stub; termination menu is finite; CrossHair/z3 models; threaded obligations run the worker untraced; line locations decided on 10 + 32 concrete programs through the real exec (solver-enumerated menu, CPython's traceback as oracle)", "DESIGN.md §3 C04"),
  "C05": (TECH,
-         "Same stub with the menu extended by KeyboardInterrupt, GeneratorExit, a direct BaseException subclass and an internal-fault switch: CrossHair confirms over all paths that after run/call/evaluate returns or raises, sys.stdout, time.sleep and the sys.modules key set are as before and the sandbox's stacks are empty, and (two-step histories) that the next execution captures exactly its own output.",
-         "exec stub; tracer styles and timeouts outside the claim; CrossHair/z3 models", "DESIGN.md §3 C05"),
+         "Same stub with the menu extended by KeyboardInterrupt, GeneratorExit, a direct BaseException subclass and an internal-fault switch: CrossHair confirms over all paths that after run/call/evaluate returns or raises, sys.stdout, time.sleep, the sys.modules object and its contents (the program may delete / rebind / add entries or rebind the table) and - for each tracer style, with nested executions and a host trace function - sys.gettrace() are as before and the sandbox's stacks are empty, and (two-step histories) that the next execution captures exactly its own output.",
+         "exec stub; timeouts / threads outside the claim; tracer-style obligations run untraced inside solver-enumerated menus; CrossHair/z3 models", "DESIGN.md §3 C05"),
  "C07": (TECH2,
-         "Relation kernels of 30 assertion classes decided by CrossHair over unbounded symbolic operands (doubles, ints, strings, lists, mixed scalars); the float tolerance decided for all reals by z3 on the AST translation of equality_test and on an IEEE grid; the public calls with every raw/proxy combination, error operands, presentation keywords and unit_test() decided over small grids. NaN, regex/output/type assertions are outside the claim; relations that raise are a recorded known finding.",
+         "Relation kernels of 30 assertion classes decided by CrossHair over unbounded symbolic operands (doubles, ints, strings, lists, mixed scalars); the float tolerance decided for all reals by z3 on the AST translation of equality_test and on an IEEE grid; the public calls with every raw/proxy combination (incl. one-shot lazy results), error operands, presentation keywords and unit_test() decided over small grids; sets/frozensets, +-inf and delta=None on grids. NaN, regex/output/type assertions are outside the claim; relations that raise are a recorded known finding.",
          "mixed int/float arithmetic over the reals (E2) + concrete IEEE grid; proxied calls run untraced on concrete values; harness oracles", "DESIGN.md §3 C07"),
  "C08": (TECH2,
          "Threshold logic decided for all non-negative integers by z3 on the AST translation of both _check_usage methods; the symbol tables compared with CPython's parser as z3 functions over the finite symbol sort; the real find_* helpers and ensure_*/prevent_* classes decided by CrossHair over programs with symbolic identifier / constant leaves and over operator / statement menus (incl. chained comparisons and nesting), against a plain walk of CPython's tree.",
@@ -31,25 +31,25 @@ CLAIMS = {
          "Inductive step: from every reachable symbolic abstract pre-state of a variable (z3 strings over yes/no/maybe) the real Tifa.visit is run on blocks from 7 shapes x 7 atoms and compared with a reference interpreter over the concretisation and all branch outcomes: issue labels and lines for every read, and the abstract post-state, are exact; match_rso is the exact join (z3, all pairs). Loops: no missed uninitialised read for while; the for-loop case is a recorded known finding. Nesting beyond the checked shapes is covered by the structural-induction argument only.",
          "semi-internal entry (planted name_map + Tifa.visit); reference interpreter is the oracle; independent branch conditions", "DESIGN.md §3 C09"),
  "C10": (TECH,
-         "For 44 pattern x student-shape pairs (quick: 26) with symbolic identifiers and constants in the student tree, CrossHair confirms over all paths that every AstMap the real matcher returns passes an independent witness checker (kinds, primitive content in type and value, direct ordered children up to +/* swap, single identifier per _var_, __expr__ bound to the node at its position) and that absent concrete content yields no match; identifiers at the boundary of the placeholder syntax are shown to be treated as concrete code.",
+         "For 63 pattern x student-shape pairs (quick: 39) over 14 shapes, plus 10 inherited sub-matching pairs, with symbolic identifiers and constants in the student tree, CrossHair confirms over all paths that every AstMap the real matcher returns passes an independent witness checker (kinds, primitive content in type and value, direct ordered children up to +/* swap, single identifier per _var_, __expr__ bound to the node at its position) and that absent concrete content yields no match; identifiers at the boundary of the placeholder syntax are shown to be treated as concrete code.",
          "shape and pattern families are finite; trees with symbolic leaves are built with ast constructors; the witness checker is the oracle", "DESIGN.md §3 C10"),
  "C11": (TECH,
-         "Bounded-exhaustive: the solver enumerates (with a completeness verdict) a finite grid of 13 student templates x identifier/constant menus (all coincidences) x 9 derivation kinds x positions; for each choice the pattern is derived from the student's own program and the real find_matches must return a match binding the placeholder to what it replaced. The pattern has to be text, so the matcher runs on concrete values; the claim is exhaustive within the grid only.",
+         "Bounded-exhaustive: the solver enumerates (with a completeness verdict) a finite grid of 18 student templates x identifier/constant menus (all coincidences) x 10 derivation kinds x positions; for each choice the pattern is derived from the student's own program and the real find_matches must return a match binding the placeholder to what it replaced. The pattern has to be text, so the matcher runs on concrete values; the claim is exhaustive within the grid only.",
          "finite grid; matcher executed concretely (untraced) per enumerated path; CrossHair's path enumeration", "DESIGN.md §3 C11"),
  "C12": (TECH,
-         "With the parser replaced by a stub raising error objects whose position attributes are symbolic within the shapes harvested from CPython on every run, CrossHair confirms over all paths (files <= 3 lines, section offsets <= 2, 3 exception classes) that verify never raises, reports exactly one syntax feedback on CPython's line shifted by the section offset, and stores the parser's tree on acceptance. The parser's own accept/reject decision is CPython's and is not re-verified.",
-         "parser stub constrained to harvested shapes; CrossHair/z3 models; harness oracle", "DESIGN.md §3 C12"),
+         "With the parser replaced by a stub raising error objects whose position attributes are symbolic within the shapes harvested from CPython on every run, CrossHair confirms over all paths (files <= 3 lines, section offsets <= 2, 3 exception classes) that verify never raises, reports exactly one syntax feedback on CPython's line shifted by the section offset (also when the parser refuses the text with UnicodeEncodeError / RecursionError / ValueError / MemoryError instead of a SyntaxError), and stores the parser's tree on acceptance. The parser's own accept/reject decision is CPython's and is not re-verified.",
+         "parser stub constrained to harvested shapes; 44 concrete texts additionally go through the real parser (solver-enumerated menu); CrossHair/z3 models; harness oracle", "DESIGN.md §3 C12"),
  "C15": (TECH,
-         "Within the stated bounds (texts <= 3 chars over all unicode for the single recording step from an arbitrary accumulated state; 2-3 operation histories of run/call/evaluate/clear_output with texts <= 1 char; input queues <= 3 items) the solver shows the output/input bookkeeping oracle holds on every path; outside the bounds nothing is claimed. The inductive single-step obligation makes the raw/line-view part independent of history length.",
+         "Within the stated bounds (texts <= 3 chars over all unicode for the single recording step from an arbitrary accumulated state; 2-3 operation histories of run/call/evaluate/clear_output with texts <= 1 char; input queues <= 3 items; programs that also write to stderr, keep a reference to input(), or hand the queue back) the solver shows the output/input bookkeeping oracle holds on every path; outside the bounds nothing is claimed. The inductive single-step obligation makes the raw/line-view part independent of history length.",
          "exec of student code is a stub writing a symbolic string; CrossHair's str/list models, z3, CPython; harness oracles", "DESIGN.md §3 C15"),
  "C17": (TECH2,
          "Index arithmetic decided for all integers by z3 on the AST translation. With re.split stubbed by its contract (symbolic parts of any unicode content, <= 1-2 chars each, one or two markers) CrossHair confirms over all paths the chunk / prefix texts, line offset = newlines before the section, not_enough_sections instead of an error past the end, syntax-error lines shifted to whole-file numbering, and restoration of the original text by stop_sections()/resolve, for independent and cumulative mode and 0-4 next_section calls.",
          "re.split and the parser are stubs constrained by their contracts; TIFA/sandbox locations inside sections are outside the claim", "DESIGN.md §3 C17"),
  "C19": (TECH,
-         "For every binary operator and comparison, every ordered operand pair from a grid of ints (incl. negatives), floats, strings, lists and tuples is enumerated by the solver through pedal's real operator table and through tifa_analysis, against CPython evaluating the same operands (TypeError => reported; otherwise the inferred type admits the real result); value typing is decided by CrossHair over symbolic scalars, lists, tuples, dicts and nested lists (stable, conforming). Value-dependent Pow cells are recorded known findings.",
+         "For every binary operator and comparison, every ordered operand pair from a grid of ints (incl. negatives), floats, strings, lists and tuples is enumerated by the solver through pedal's real operator table and through tifa_analysis, against CPython evaluating the same operands (TypeError => reported; otherwise the inferred type admits the real result); depth-2 expression trees, chained comparisons and empty / container operands go through tifa_analysis the same way; value typing is decided by CrossHair over symbolic scalars, lists, tuples, dicts and nested lists plus a menu of unusual legal values (stable, conforming). Value-dependent Pow cells and int * tuple + tuple are recorded known findings.",
          "operand grids are finite menus; CPython is the reference side; CrossHair/z3 models", "DESIGN.md §3 C19"),
  "C20": (TECH,
-         "Within the bounds (one instructor-defined feedback with every condition outcome x keyword combination; ordered pairs of core commands; 5 templates x 2 formatters; all 3-step override sequences over a class, an inheriting subclass and an unrelated class followed by clear/contextualize) CrossHair confirms over all paths the recorded-once / truthful / rendered-from-fields / restored oracle.",
+         "Within the bounds (one instructor-defined feedback with every condition outcome x keyword combination; ordered pairs of core commands; 6 templates x 3 formatters; parents by name; log()/debug(); all 3-step override sequences over a class, an inheriting subclass and an unrelated class followed by clear/contextualize) CrossHair confirms over all paths the recorded-once / truthful / rendered-from-fields / restored oracle.",
          "field values for rendering come from a 4-value menu; CrossHair/z3 models; harness oracle", "DESIGN.md §3 C20"),
 }
 NA = {
